@@ -94,7 +94,9 @@ class JsonUtil:
                 result[JsonUtil._key_to_str(key)] = JsonUtil.sanitize(subvalue)
             return result
         elif isinstance(value, str):
-            return str(value)
+            # Like the json module, ignore __str__ overrides in subclasses of
+            # str, e.g. in the members of an enum that derives from str
+            return str.__str__(value)
         elif isinstance(value, int):
             return int(value)
         elif isinstance(value, float):
@@ -114,7 +116,9 @@ class JsonUtil:
         if key.__class__ == str:
             return key
         elif isinstance(key, str):
-            return str(key)
+            # Like the json module, ignore __str__ overrides in subclasses of
+            # str
+            return str.__str__(key)
         elif isinstance(key, bool):
             if bool(key):
                 return 'true'
